@@ -62,7 +62,7 @@ def conclude(rep, known, seed, t0, meta, verbose=False):
     real_viol = 0
     for ob, fn, reproduced in rep.violations:
         rel = os.path.relpath(fn, VERIF)
-        if reproduced is True:
+        if reproduced is True or reproduced == 'skipped':
             lines.append('VIOLATION property=%s replay=%s' % (prop, rel))
             lines.append('  failed obligation: %s  inputs=%s' % (ob.id, json.dumps(ob.model, default=str)))
             real_viol += 1
@@ -133,8 +133,9 @@ def conclude(rep, known, seed, t0, meta, verbose=False):
         cov['explanation'] = (cov['explanation'] + ' All obligations of this property are BOUNDED stand-ins (bounds listed); none is counted as proved.').strip()
     ev = {'property_id': prop, 'tier': rep.tier, 'seed': seed, 'level': level, 'coverage': cov,
           'assumptions': rep.assumptions + meta.get('assumptions', []), 'wall_s': round(wall, 2), 'violations': real_viol}
-    os.makedirs(os.path.join(VERIF, 'evidence'), exist_ok=True)
-    with open(os.path.join(VERIF, 'evidence', '%s.json' % prop), 'w') as f:
+    evdir = os.environ.get('VF_EVIDENCE_DIR') or os.path.join(VERIF, 'evidence')
+    os.makedirs(evdir, exist_ok=True)
+    with open(os.path.join(evdir, '%s.json' % prop), 'w') as f:
         json.dump(ev, f, indent=1, default=str)
     print('%s tier=%s: %d contracts, %d functions, %d paths, proof obligations %d/%d discharged (%s), bounded %d/%d, known-finding obligations %d, undecided %d, errors %d, %.1fs -> exit %d'
           % (prop, rep.tier, len(rep.contracts), len(rep.functions), rep.paths, cov['discharged'], cov['obligations'],
